@@ -49,7 +49,7 @@ Definition extras (s : sig) (kwargs : kvmap) : list (string * atom) :=
   map (fun e => (fst e, to_atom (snd e))) (filter (fun e => negb (mems (fst e) (non_vk_names s))) kwargs).
 
 (* ---- inspect.Signature.bind + apply_defaults, as _get_call_values consumes it ---- *)
-Fixpoint bind_pos (ps : list param) (args : list kval) (acc : kvmap) : option (kvmap * list kval) :=
+Fixpoint bind_pos (ps : list param) (args : list kval) (acc : kvmap) {struct args} : option (kvmap * list kval) :=
   match args with
   | [] => Some (acc, [])
   | a :: ar =>
